@@ -159,19 +159,19 @@ theorem file_of_lines (ls : List Str) (hne : ls ≠ []) (h : CleanLines ls) :
     rw [universal_write CRLF (Or.inr rfl) _ (noCR_join _ hx), splitRegexCRLF_noCR _ (noCR_join _ hx)]
     exact splitOn_join _ (by simp) hx.noLF
 
-/-- **Save/load is stable** (without `ignore_blank_lines`).  Take any file content `raw`, any
-`os.linesep` (LF or CRLF), any tree configuration.  Let `b₁ = cycle raw` be the bytes of the first
-save of the object loaded from `raw`.  Then for every number `n` of further load+save cycles the
-bytes written are `b₁` again, and the lines read (and the texts of the object) are those read
-from `b₁`: the file neither grows nor shrinks however often the cycle repeats. -/
-theorem save_load_fixpoint (cfg : Tree.Cfg) (hi : cfg.ignoreBlank = false) (sep : Str) (hs : IsLinesep sep)
-    (raw : Text) (n : Nat) :
+/-- **Save/load is stable.**  Take any file content `raw`, any `os.linesep` (LF or CRLF), any
+tree configuration (syntax, comment delimiters, `ignore_blank_lines` on or off).  Let
+`b₁ = cycle raw` be the bytes of the first save of the object loaded from `raw`.  Then for every
+number `n` of further load+save cycles the bytes written are `b₁` again, and the lines read and
+the texts of the object are those read from `b₁`: the file neither grows nor shrinks however
+often the cycle repeats. -/
+theorem save_load_fixpoint (cfg : Tree.Cfg) (sep : Str) (hs : IsLinesep sep) (raw : Text) (n : Nat) :
     let b₁ := cycle cfg sep raw
     iter (cycle cfg sep) n b₁ = b₁ ∧
     fileLines (iter (cycle cfg sep) n b₁) = fileLines b₁ ∧
     texts cfg (fileLines (iter (cycle cfg sep) n b₁)) = texts cfg (fileLines b₁) := by
   have hfix : cycle cfg sep (cycle cfg sep raw) = cycle cfg sep raw :=
-    cycleG_fix (stable_noIgnore cfg hi) sep hs raw
+    cycleG_fix (stable_texts cfg) sep hs raw
   have : iter (cycle cfg sep) n (cycle cfg sep raw) = cycle cfg sep raw := by
     cases n with
     | zero => rfl
@@ -182,6 +182,22 @@ theorem save_load_fixpoint (cfg : Tree.Cfg) (hi : cfg.ignoreBlank = false) (sep 
   show iter (cycle cfg sep) n (cycle cfg sep raw) = cycle cfg sep raw ∧ _
   rw [this]
   exact ⟨rfl, rfl, rfl⟩
+
+/-- the same on the level of the file system: saving the object loaded from path `p` to `q` and
+loading `q` again (any paths that are single-line strings) reads the lines of the first save -/
+theorem save_load_paths (cfg : Tree.Cfg) (sep : Str) (hs : IsLinesep sep) (fs : Path → Option Text)
+    (p q : Path) (raw : Text) (hp : (splitlines p).length = 1) (hq : (splitlines q).length = 1)
+    (hf : fs p = some raw) :
+    ∃ t₀, load cfg fs (.str p) = .ok t₀ ∧
+      let b₁ := saveAs sep (getText t₀)
+      b₁ = cycle cfg sep raw ∧
+      ∃ t₁, load cfg (fsWrite fs q b₁) (.str q) = .ok t₁ ∧ saveAs sep (getText t₁) = b₁ := by
+  refine ⟨Tree.parse cfg (fileLines raw), ?_, rfl, Tree.parse cfg (fileLines (cycle cfg sep raw)), ?_, ?_⟩
+  · simp [load, single_line_str_is_path fs p hp, hf, Except.map]
+  · have : fsWrite fs q (saveAs sep (getText (Tree.parse cfg (fileLines raw)))) q
+        = some (cycle cfg sep raw) := by simp [fsWrite]; rfl
+    simp [load, single_line_str_is_path _ q hq, this, Except.map]
+  · exact cycleG_fix (stable_texts cfg) sep hs raw
 
 /-- what the first save holds and what is read back from it: the object's lines, with a final
 empty line unless there is one already (`norm`); the texts of a file-loaded object are the file's
@@ -200,30 +216,23 @@ theorem first_save_spec (cfg : Tree.Cfg) (hi : cfg.ignoreBlank = false) (sep : S
     unfold saveAs
     rw [saveText_eq _ hc.noLF, universal_write sep hs _ (noCR_join _ (cleanLines_norm hc))]
 
-/-- **Save/load is stable, with `ignore_blank_lines`** — partial: proved from one stated fact
-about the tree model (`hsnoc`: appending one empty line to the kept lines `M` of an object either
-keeps that line or drops it, and leaves `M` as it is).  The other two facts used (`texts` is a
-sub-list of its input; `texts` is idempotent) are proved for every configuration
-(`texts_sublist`, `texts_idem`).
-Full statement wanted: the same without `hsnoc`. -/
-theorem save_load_fixpoint_ignore_blank_partial (cfg : Tree.Cfg) (sep : Str) (hs : IsLinesep sep)
-    (hsnoc : ∀ ls, texts cfg (texts cfg ls ++ [[]]) = texts cfg ls ∨
-      texts cfg (texts cfg ls ++ [[]]) = texts cfg ls ++ [[]])
-    (raw : Text) (n : Nat) :
-    let b₁ := cycle cfg sep raw
-    iter (cycle cfg sep) n b₁ = b₁ ∧ fileLines (iter (cycle cfg sep) n b₁) = fileLines b₁ := by
-  have hg : Stable (texts cfg) := ⟨texts_sublist cfg, texts_idem cfg, hsnoc⟩
-  have hfix : cycle cfg sep (cycle cfg sep raw) = cycle cfg sep raw := cycleG_fix hg sep hs raw
-  have : iter (cycle cfg sep) n (cycle cfg sep raw) = cycle cfg sep raw := by
-    cases n with
-    | zero => rfl
-    | succ n =>
-      have := iter_succ_fix (cycle cfg sep) (cycle cfg sep raw) (by rw [hfix, hfix]) n
-      rw [this, hfix]
-  intro b₁
-  show iter (cycle cfg sep) n (cycle cfg sep raw) = cycle cfg sep raw ∧ _
-  rw [this]
-  exact ⟨rfl, rfl⟩
+/-- starting from lines of any origin (a list whose items may even contain `\r` or `\n`): the
+first save need not be reproduced (an embedded `\r` is read back as a line end), but the second
+is, for ever after. -/
+theorem save_load_from_any_lines (cfg : Tree.Cfg) (sep : Str) (hs : IsLinesep sep) (ls : List Str) (n : Nat) :
+    let b₂ := cycle cfg sep (saveAs sep (texts cfg ls))
+    iter (cycle cfg sep) n b₂ = b₂ :=
+  (save_load_fixpoint cfg sep hs (saveAs sep (texts cfg ls)) n).1
+
+/-- the constants of the reader and writer in `/repo` (regenerated from the source on every run)
+are the ones the model hard-wires: the regex `\r*\n` (both where `read_config` passes it and as
+the default), `open(mode="r", newline=None)`, `"\n".join`, the `"\n"` terminator test and
+addition, `open(…, "w")` without a `newline` argument. -/
+theorem constants_as_modelled :
+    Gen.inputLinesplitRgx = "\\r*\\n" ∧ Gen.inputLinesplitRgxDefault = "\\r*\\n" ∧
+    Gen.inputOpenMode = "r" ∧ Gen.inputOpenNewlineIsNone = true ∧
+    Gen.saveJoinSep = "\n" ∧ Gen.saveEndswith = "\n" ∧ Gen.saveTerminator = "\n" ∧
+    Gen.saveOpenMode = "w" ∧ Gen.saveOpenHasNewlineArg = false := by decide
 
 /-! ## non-vacuity -/
 
@@ -245,6 +254,15 @@ example : splitRegexCRLF "a\r\r\nb\r\rX\r\n".toList = ["a".toList, "b\r\rX".toLi
 -- file without final line end: first save adds it, afterwards nothing changes (3 cycles shown)
 example : (List.range 4).map (fun n => iter (cycle iosCfg LF) n "a\r\n\r\nb".toList)
     = ["a\r\n\r\nb".toList, "a\n\nb\n".toList, "a\n\nb\n".toList, "a\n\nb\n".toList] := by decide
+-- with `ignore_blank_lines`: the blank lines go at the first load, then nothing changes
+example : (List.range 3).map (fun n => iter (cycle { iosCfg with ignoreBlank := true } LF) n "a\n\n b\n\n".toList)
+    = ["a\n\n b\n\n".toList, "a\n b\n".toList, "a\n b\n".toList] := by decide
+-- an unterminated banner keeps the blank lines after it, also the final one
+example : (List.range 3).map (fun n => iter (cycle { iosCfg with ignoreBlank := true } LF) n "banner motd ^\n\nx".toList)
+    = ["banner motd ^\n\nx".toList, "banner motd ^\n\nx\n".toList, "banner motd ^\n\nx\n".toList] := by decide
+-- a list item with an embedded `\r`: the first save is not reproduced, the second is
+example : (List.range 3).map (fun n => iter (cycle iosCfg LF) n (saveAs LF ["a\rb".toList]))
+    = ["a\rb\n".toList, "a\nb\n".toList, "a\nb\n".toList] := by decide
 example : (List.range 3).map (fun n => iter (cycle iosCfg CRLF) n "a\n".toList)
     = ["a\n".toList, "a\r\n".toList, "a\r\n".toList] := by decide
 
